@@ -20,6 +20,13 @@ def gen_inputs(ctx, salt, n_gold, n_gen):
     out = []
     for s in c03.EOF_SPECIALS:
         out.append(("special", s.encode("utf-8", "surrogateescape")))
+    # every one-byte file, and the proper prefixes of multi-byte sequences (a byte order mark, CJK, emoji)
+    for b in range(256):
+        out.append(("byte", bytes([b])))
+    for seq in (b"\xef\xbb\xbf", b"\xe3\x81\x82", b"\xf0\x9f\x98\x80", b"\xc3\xa9"):
+        for k in range(2, len(seq) + 1):
+            out.append(("byte", seq[:k]))
+            out.append(("byte", seq[:k] + b"x = 1\ndbtp x\n"))
     probes = os.path.join(C.CORPUS, "probes")
     for f in sorted(os.listdir(probes)):
         if f.endswith(".rb"):
